@@ -88,12 +88,12 @@ def correspondence(ctx):
     # the same after the sandbox has been used and its history cleared
     cases += [{'name': p, 'program': PROGRAMS[p], 'schedule': s, 'allowed': 0.3, 'warmup': True}
               for p in (progs if ctx.tier != 'quick' else ['busy', 'printing']) for s in ('N', 'A') if p not in HELPERS]
-    for c in cases:
-        if c['name'] in HELPERS:
-            c['files'] = {'answer.py': HELPERS[c['name']][0], 'helper.py': HELPERS[c['name']][1]}
     # the same, issued while the grading script is itself handling an exception (try: int('x') / except ValueError: run(...))
     cases += [{'name': p, 'program': PROGRAMS[p], 'schedule': s, 'allowed': 0.3, 'in_except': True}
               for p in (progs if ctx.tier != 'quick' else ['busy', 'printing', 'finish-late']) for s in ('N', 'A', 'B')]
+    for c in cases:
+        if c['name'] in HELPERS:
+            c['files'] = {'answer.py': HELPERS[c['name']][0], 'helper.py': HELPERS[c['name']][1]}
     res = vlib.run_impl('c14_impl.py', {'cases': cases}, timeout=1200)
     es, ts = site_ids()
     items = []
